@@ -209,7 +209,10 @@ def _split():
     # a max-level node (position 1)
     for op in ("push_increase", "push_decrease"):
         for k in (1, 3):
-            step(op, "dq", 8, "inv", "all", {"C11": QUICK}, tables=f"idk{k}", grow=1, cost=400)
+            # (4-5 min each: the raise from the min-level node and the lowering of the max-level
+            # node in the quick tier, the other two in the thorough one)
+            tt = QUICK if (op, k) in (("push_increase", 3), ("push_decrease", 1)) else THOROUGH
+            step(op, "dq", 8, "inv", "all", {"C11": tt}, tables=f"idk{k}", grow=1, cost=400)
     # change_priority_by shares the sift path of change_priority but not its entry point
     for n, keys in ((4, (0, 1, 3)), (6, (1, 3))):
         for k in keys:
@@ -703,7 +706,7 @@ def _serde():
         s_, d_ = KINDS[src]["ty"], KINDS[dst]["ty"]
         inst(f"serde_rt_{src}_{dst}_n8_hint", f"serde_h::roundtrip::<{s_}, {d_}, 8>(true)", dst, 8, {"C15": t}, "SERDE",
              meta=dict(op="serialize->deserialize", source=src, target=dst, n=8, size_hint=True),
-             covers_required=False, cost=600 if dst == "dq" else 150, mem=7 if dst == "dq" else 5)
+             covers_required=False, cost=600 if dst == "dq" else 150, mem=12 if dst == "dq" else 5)
     for dst in ("pq", "dq"):
         d = KINDS[dst]["ty"]
         for l, seqs in {0: [("e", [])], 1: [("a", [1])], 2: [("ab", [1, 2]), ("aa", [3, 3])],
